@@ -52,6 +52,7 @@ cfun.ADDRESS_OF.setdefault('PyType_Type', vobj(TYPE))
 TYPE_SUBCLASS_FLAG = 1 << 31
 type_feature = z3.Function('PyType_HasFeature', Obj, Int, B)
 _o = z3.Const('c1_o', Obj)
+AXIOMS.append(z3.Not(subtype(typeof(NONE), SPECBASE)))          # None is not a specification
 AXIOMS.append(z3.ForAll([_o], type_feature(typeof(_o), TYPE_SUBCLASS_FLAG) == subtype(typeof(_o), TYPE), patterns=[type_feature(typeof(_o), TYPE_SUBCLASS_FLAG)]))
 
 
@@ -156,7 +157,7 @@ def _has_feature(ex, st, vs):
 
 
 API = {'PyObject_GetAttr': _getattr, 'PyObject_IsInstance': _isinstance, 'PyObject_HasAttrString': _hasattr_string,
-       '_zic_state_load_declarations': _load_state, '_zic_state': lambda ex, st, vs: [(st, vobj(REC))],
+       '_zic_state_load_declarations': _load_state, '_zic_state': lambda ex, st, vs: [(st, vobj(REC))], 'PyModule_GetState': lambda ex, st, vs: [(st, vobj(REC))],
        'PyObject_GetItem': _getitem, 'PyDict_GetItem': _dict_getitem, 'PyType_HasFeature': _has_feature,
        'PyObject_CallFunctionObjArgs': _call_fallback}
 QUERY_API = dict(API, implementedBy=_implementedBy_oracle)
